@@ -316,7 +316,7 @@ static_services:
 		out.Crash = par.crashLines()
 	case "realchild":
 		child, err := startSam(bin, dir, "child", cfg, []string{
-			fmt.Sprintf("__Samaritan_Parent__=%d", pid), "__Samaritan_Parent_Terminate_Time__=1500ms"})
+			fmt.Sprintf("__Samaritan_Parent__=%d", pid), "__Samaritan_Parent_Terminate_Time__=700ms"})
 		if err != nil {
 			out.Infra = "start child: " + err.Error()
 			return
